@@ -202,13 +202,19 @@ func (p *Program) canonicaliseNames() {
 			if c.f.Pkg.Name != r.Pkg {
 				continue
 			}
+			// a method that did not need its receiver turned into a function
+			// of the same name and signature, or the reverse
+			moved := (recvOf(c.f) == "") != (r.Recv == "") && baseName(c.f.Short) == baseName(strings.TrimPrefix(r.Name, r.Pkg+".")) && c.sig == r.Sig
 			// the receiver must agree unless the receiver type itself is gone
-			if recvOf(c.f) != r.Recv && r.Recv != "" && p.typeExists(r.Pkg, strings.Trim(r.Recv, "(*)")) {
+			if !moved && recvOf(c.f) != r.Recv && r.Recv != "" && p.typeExists(r.Pkg, strings.Trim(r.Recv, "(*)")) {
 				continue
 			}
 			s := similarity(r.Sketch, c.sketch)
 			if c.sig == r.Sig {
 				s += 0.25
+			}
+			if moved && s < 0.6 {
+				s = 0.6
 			}
 			if s >= 0.55 {
 				pairs = append(pairs, pair{r, i, s})
@@ -230,6 +236,13 @@ func (p *Program) canonicaliseNames() {
 		f.Short = strings.TrimPrefix(pr.r.Name, pr.r.Pkg+".")
 		p.byName[f.Name] = f
 	}
+}
+
+func baseName(short string) string {
+	if i := strings.LastIndex(short, "."); i >= 0 {
+		return short[i+1:]
+	}
+	return short
 }
 
 func (p *Program) typeExists(pkg, name string) bool {
